@@ -16,6 +16,9 @@ def classify(known, c, r):
         return "named_parameter_with_two_casts"
     if re.search(r"sqlc\.arg\(\s+|sqlc\.arg\([^)]*\s\)|sqlc\.arg\(\"", q):
         return "sqlc_arg_spelling_changes_replaced_length"
+    # ... and the third: a named parameter inside SET (a, b) = (.., ..) is rewritten once per target column
+    if re.search(r"(?is)\bSET\s*\([^)]*\)\s*=\s*\([^;]*?(@\w|sqlc\.arg)", q):
+        return "named_parameter_in_multi_column_assignment"
     return None
 
 
